@@ -2060,36 +2060,30 @@ func (m *repoManager) findMatch(kvv kvVersions, v dvid.VersionID) (*storage.KeyV
 		// Ascend the graph
 		return m.findMatch(kvv, parents[0])
 	default:
-		// We have multiple parents so this is a merge.  Traverse each path up.
+		// We have multiple parents so this is a merge.  Traverse each path up,
+		// collecting the closest kv on every path.  Each collected kv invalidates
+		// the kvs of its own ancestors, so what survives below are exactly the
+		// kvs not superseded (overwritten or deleted) along any lineage.
+		matches := make(map[dvid.VersionID]*storage.KeyValue)
+		for _, parent := range parents {
+			if err := m.collectMatches(kvv, parent, matches); err != nil {
+				return nil, parent, err
+			}
+		}
+		// Remove any matches that are in invalidated versions or are tombstones.
 		var foundKV *storage.KeyValue
 		var foundV dvid.VersionID
 		foundVs := make(map[dvid.VersionID]struct{})
-		for _, parent := range parents {
-			matchKV, matchV, err := m.findMatch(kvv, parent)
-			if err != nil {
-				return nil, parent, err
+		for matchV, matchKV := range matches {
+			if kvv[matchV].invalid {
+				continue
 			}
-			if matchKV != nil && matchKV.K != nil && !matchKV.K.IsTombstone() {
-				foundKV = matchKV
-				foundV = matchV
-				foundVs[matchV] = struct{}{}
+			if matchKV == nil || matchKV.K == nil || matchKV.K.IsTombstone() {
+				continue
 			}
-		}
-		// Remove any matches that are in invalidated versions.
-		badV := []dvid.VersionID{}
-		for fv := range foundVs {
-			n, found := kvv[fv]
-			if !found {
-				return nil, 0, fmt.Errorf("Got match (version %d) that wasn't in possible k/v!", fv)
-			}
-			if n.invalid {
-				badV = append(badV, fv)
-			}
-		}
-		if len(badV) > 0 {
-			for _, bv := range badV {
-				delete(foundVs, bv)
-			}
+			foundKV = matchKV
+			foundV = matchV
+			foundVs[matchV] = struct{}{}
 		}
 		// Make sure we have only one kv on all paths up because if we do not,
 		// it's a failure in the past merge -- we should've had a kv at this
@@ -2111,6 +2105,28 @@ func (m *repoManager) findMatch(kvv kvVersions, v dvid.VersionID) (*storage.KeyV
 			return nil, 0, fmt.Errorf("found multiple kv for key %v among parents: versions %v", foundKV.K, foundVs)
 		}
 	}
+}
+
+// collectMatches adds to matches the closest kv (value or tombstone) on every path
+// up from version v and invalidates the kvs of each match's ancestors.
+func (m *repoManager) collectMatches(kvv kvVersions, v dvid.VersionID, matches map[dvid.VersionID]*storage.KeyValue) error {
+	if n, found := kvv[v]; found {
+		if n.invalid {
+			return nil // superseded, as are all kvs above it.
+		}
+		matches[v] = n.kv
+		return m.invalidateAncestors(kvv, v)
+	}
+	parents, err := m.getParentsByVersion(v)
+	if err != nil {
+		return err
+	}
+	for _, parent := range parents {
+		if err := m.collectMatches(kvv, parent, matches); err != nil {
+			return err
+		}
+	}
+	return nil
 }
 
 // ----- Repo-level data instance functions -----
